@@ -1,6 +1,6 @@
 (* C07 - Clones are faithful, self-contained and independent of the original. Property theorems only. *)
 From Coq Require Import List ZArith String.
-From SV Require Import Base.Base IR.State IR.NS IR.Ops Xform.Clone Proofs.CloneSmall Proofs.C01_full Proofs.Inv1a Proofs.Inv2a Proofs.CloneFrame Proofs.CloneStart Proofs.NsInv Proofs.InvW Proofs.UniqInv Proofs.CloneFaith Proofs.CloneFull Proofs.CloneNetInv Proofs.CloneDefStruct Proofs.CloneLibInv Proofs.CloneAnyInv Proofs.CloneData Proofs.CloneDataNet Proofs.Locality Proofs.LocalityStep Proofs.LocalityHist Proofs.LocalityClone Proofs.LocalityOrig Proofs.LocalityDrefs Proofs.LocalityNet.
+From SV Require Import Base.Base IR.State IR.NS IR.Ops Xform.Clone Proofs.CloneSmall Proofs.C01_full Proofs.Inv1a Proofs.Inv2a Proofs.CloneFrame Proofs.CloneStart Proofs.NsInv Proofs.InvW Proofs.UniqInv Proofs.CloneFaith Proofs.CloneFull Proofs.CloneNetInv Proofs.CloneDefStruct Proofs.CloneLibInv Proofs.CloneAnyInv Proofs.CloneData Proofs.CloneDataNet Proofs.Locality Proofs.LocalityStep Proofs.LocalityHist Proofs.LocalityClone Proofs.LocalityOrig Proofs.LocalityDrefs Proofs.LocalityRefs Proofs.LocalityNet.
 Import ListNotations.
 
 (* cloning a wire: one fresh element, no pins listed, nothing else changes *)
@@ -561,15 +561,20 @@ Proof.
   constructor.
 Qed.
 
-(* The clause at full strength. The first half (edits of the copy) is proved above except for the exactness
-   of the reference sets of the original (drefs, the documented exception of out_eq: it needs one more pass
-   over op_set_reference under the hypothesis that references of the region stay inside it, which
-   NetStruct.ns_ref gives for the copy). The second half (edits of the original never show in the copy)
-   is C07_independent_of_closed_region at the complement region fun x => x < next s \/ next sF <= x; what is
-   missing is the closure of that region after the clone: all clauses follow like copy_region_closed from
-   Inv / Fresh / FT / RefK of the state after the clone, except that no instance of the copy is listed in
-   a reference set of an original definition - to be taken from NetStruct (ns_ref, ns_refs), which is
-   stated over the memo's images and does not yet say that every new instance is an image. *)
+(* LOCALITY including the reference sets: when the references of the region stay inside it as well
+   (RefIn: true of both regions after Netlist.clone; false of the copy made by Definition.clone /
+   Library.clone, whose children reference outside definitions - the documented exception), a call on the
+   region changes no reference set outside it either, and RefIn is preserved. *)
+Theorem C07_locality_with_reference_sets : forall P s o, op_in P o ->
+  RClosed P s -> RefIn P s ->
+  (out_eq P s (fst (step s o)) /\ RClosed P (fst (step s o))) /\ (dr_eq P s (fst (step s o)) /\ RefIn P (fst (step s o))).
+Proof. exact step_loc2. Qed.
+Print Assumptions C07_locality_with_reference_sets.
+
+(* The independence clause at full strength for Netlist.clone: in every reachable state, after a completed
+   clone of a closed netlist, for every history of editing calls (accepted or refused) on objects of the
+   copy - resp. of the original - (objects created by the history join the side it works on), EVERY field
+   of EVERY object of the other side, reference sets included, is exactly as the clone left it. *)
 Definition C07_independent_full : Prop :=
   forall ops0 n h,
   let s := run ops0 init in
@@ -582,3 +587,16 @@ Definition C07_independent_full : Prop :=
   (Forall (op_in (fun x => x < next s \/ next sF <= x)) h ->
      out_eq (fun x => x < next s \/ next sF <= x) sF (run h sF) /\
      forall x, next s <= x -> x < next sF -> drefs (run h sF) x = drefs sF x).
+
+Theorem C07_independent : C07_independent_full.
+Proof. exact netlist_clone_independent. Qed.
+Print Assumptions C07_independent.
+
+(* What stays outside: (1) for Definition.clone / Library.clone / Instance.clone the copy's region is closed
+   except for the outward references; C07_locality and C07_independent_of_closed_region apply to any region
+   shown closed (C07_copy_region_closed_from reduces that to the running invariant CI of the frame proof,
+   which is exported for netlist roots only - clone_netlist_ci), so "edits of the copy never show in the
+   original except reference-set growth" is proved for those roots only relative to RClosed of their copy;
+   (2) the transformations uniquify / flatten as "later edits" (the harness applies them; the model's
+   histories here are the 23 editing calls); (3) OSetPolicy changes the process-wide default naming policy,
+   which is not a field of any object and is therefore not part of out_eq. *)
